@@ -26,9 +26,9 @@ PY
 res() { echo "$1" >> $WT/../confirm-$ID-$X.log; }
 : > /tmp/confirm-$ID-$X.log
 cp $DEMO $PKGDIR/zz_seed_demo_test.go
-go test -vet=off -count=1 -run "$RUN" ./$PKGDIR/ > /tmp/confirm-$ID-$X.demo0 2>&1; D0=$?
+go test ${RACE:+-race} -vet=off -count=1 -run "$RUN" ./$PKGDIR/ > /tmp/confirm-$ID-$X.demo0 2>&1; D0=$?
 git apply $SRC/patch.diff || { echo "PATCH FAILS"; exit 3; }
-go test -vet=off -count=1 -run "$RUN" ./$PKGDIR/ > /tmp/confirm-$ID-$X.demo1 2>&1; D1=$?
+go test ${RACE:+-race} -vet=off -count=1 -run "$RUN" ./$PKGDIR/ > /tmp/confirm-$ID-$X.demo1 2>&1; D1=$?
 rm $PKGDIR/zz_seed_demo_test.go
 go build ./... > /tmp/confirm-$ID-$X.build 2>&1; B=$?
 go test -vet=off -count=1 -timeout 20m ./... > /tmp/confirm-$ID-$X.suite 2>&1; S=$?
